@@ -17,7 +17,7 @@ import z3
 from vf.common import Plan
 from vf.pyvc.engine import World, T, Int, Float, Rec, PyList, FuncRef, Model, FloatV, Unsupp, RaiseExc, to_int_term, real_of, is_intlike
 from vf.pyvc.contract import FnContract, Case, obligations_for
-from vf.pyvc.interp import Interp, Closure
+from vf.pyvc.interp import Interp, Closure, BreakExc, ContinueExc
 from vf.pyvc import spec as S
 from vf.pyvc.spec import And
 
@@ -617,4 +617,354 @@ def build(tier, seed):
         plan.fn_under_contract(fc.world.file, fc.qualname)
         for ob in obligations_for(PID, fc, tier):
             plan.add(ob)
+    add_variance_transform(plan, tier)
+    add_postselection(plan, tier)
+    add_defer_measurements(plan, tier, seed)
     return plan
+
+
+# ============================================================================================== variance_transform (simulate.py)
+SIMF = "pennylane/devices/qubit/simulate.py"
+
+VT_STUBS = {
+    "Obs": ("class Obs:\n    def __matmul__(self, other):\n        return ObsProd(self, other)\n", {"oid": NoneV}),
+    "ObsProd": ("class ObsProd:\n    def __init__(self, a, b):\n        self.a = a\n        self.b = b\n", {"a": NoneV, "b": NoneV}),
+    "MV": ("class MV:\n    def __mul__(self, other):\n        return MVProd(self, other)\n", {"oid": NoneV}),
+    "MVProd": ("class MVProd:\n    def __init__(self, a, b):\n        self.a = a\n        self.b = b\n", {"a": NoneV, "b": NoneV}),
+    "VarianceMP": ("class VarianceMP:\n    pass\n", {"obs": NoneV, "mv": NoneV}),
+    "ProbabilityMP": ("class ProbabilityMP:\n    pass\n", {"obs": NoneV, "mv": NoneV, "pid": NoneV}),
+    "ExpectationMP": ("class ExpectationMP:\n    def __init__(self, obs=None):\n        if isinstance(obs, (MV, MVProd)):\n            self.mv = obs\n"
+                      "            self.obs = None\n        else:\n            self.obs = obs\n            self.mv = None\n", {"obs": NoneV, "mv": NoneV}),
+    "QuantumScript": ("class QuantumScript:\n    def __init__(self, ops=None, measurements=None, shots=None):\n        self.operations = ops\n"
+                      "        self.measurements = measurements\n        self.shots = shots\n", {"operations": NoneV, "measurements": NoneV, "shots": NoneV}),
+}
+# measurement kinds of a shape: VO = var(observable), VM = var(measurement value), EO = expval(observable), EM = expval(measurement value),
+# PR = probs(wires)
+VT_KINDS = ("VO", "VM", "EO", "PR")
+
+
+class LazyZipInterp(Interp):
+    """`for ... in enumerate(zip(live_list, ...))` with python's LAZY iterator semantics (a list iterator reads the live list by index, zip
+    (strict) checks exhaustion when the first iterator stops): variance_post_processing pops from the list it is iterating over"""
+
+    def s_For(self, s, env):
+        it = self.eval(s.iter, env)
+        if not isinstance(it, LazyIter):
+            # (the iterable was evaluated once already: evaluation of enumerate/zip/name expressions has no side effect)
+            return Interp.s_For(self, s, env)
+        self.next_loop()
+        broke = False
+        for x in it.run(self, s):
+            self.assign(s.target, x, env)
+            try:
+                self.exec_block(s.body, env)
+            except BreakExc:
+                broke = True
+                break
+            except ContinueExc:
+                continue
+        if not broke:
+            self.exec_block(s.orelse, env)
+
+
+class LazyIter(Model):
+    def __init__(self, kind, parts, strict=False, start=0):
+        self.kind, self.parts, self.strict, self.start = kind, parts, strict, start
+
+    def cursor(self, interp):
+        """python iterator protocol over live containers: returns next() -> (ok, value)"""
+        if self.kind == "enumerate":
+            inner, n = as_cursor(self.parts[0], interp), [self.start]
+
+            def nxt():
+                ok, v = inner()
+                if not ok:
+                    return False, None
+                n[0] += 1
+                return True, (n[0] - 1, v)
+            return nxt
+        curs = [as_cursor(p, interp) for p in self.parts]
+
+        def nxt():
+            vals = []
+            for k, c in enumerate(curs):
+                ok, v = c()
+                if not ok:
+                    if self.strict:
+                        if k > 0:
+                            raise RaiseExc("ValueError")        # argument k+1 is shorter than the arguments before it
+                        for c2 in curs[1:]:
+                            if c2()[0]:
+                                raise RaiseExc("ValueError")    # a later argument is longer
+                    return False, None
+                vals.append(v)
+            return True, tuple(vals)
+        return nxt
+
+    def run(self, interp, node):
+        nxt = self.cursor(interp)
+        for _ in range(64):
+            ok, v = nxt()
+            if not ok:
+                return
+            yield v
+        raise Unsupp("lazy iteration did not stop within 64 steps")
+
+
+def as_cursor(v, interp):
+    if isinstance(v, LazyIter):
+        return v.cursor(interp)
+    if isinstance(v, PyList):
+        pos = [0]
+
+        def nxt():                     # list iterator: index into the LIVE list
+            if pos[0] >= len(v.items):
+                return False, None
+            pos[0] += 1
+            return True, v.items[pos[0] - 1]
+        return nxt
+    items, pos = list(interp.iter_concrete(v)), [0]
+
+    def nxt2():
+        if pos[0] >= len(items):
+            return False, None
+        pos[0] += 1
+        return True, items[pos[0] - 1]
+    return nxt2
+
+
+def mlist_of(t):
+    ms = t.f["measurements"]
+    return list(ms.items) if isinstance(ms, PyList) else list(ms)
+
+
+def _flat(k):
+    for x in k:
+        if isinstance(x, tuple):
+            yield from _flat(x)
+        else:
+            yield x
+
+
+def _same_real(g, x):
+    if not isinstance(g, (FloatV, float, int)) or isinstance(g, bool):
+        return False
+    return real_of(g) == real_of(x)
+
+
+def vt_native_tape(shape):
+    """a real tape whose measurements have the given kinds (distinct observables / measurement values)"""
+    import pennylane as qp
+    m0, m1 = qp.measure(0), qp.measure(1)
+    obs_pool = [lambda: qp.Z(0) + 0.5 * qp.X(1), lambda: qp.X(1) - 0.3 * qp.Y(2), lambda: qp.Y(2) + 0.2 * qp.Z(0), lambda: qp.Z(1),
+                lambda: 0.7 * qp.X(0) + qp.Z(2), lambda: qp.X(2)]
+    mv_pool = [lambda: m0, lambda: m1, lambda: m0 + 2 * m1, lambda: 3 * m0 - m1, lambda: m0 * m1 + 1, lambda: 2 * m1 + 5]
+    ms = []
+    for i, kd in enumerate(shape):
+        if kd == "VO":
+            ms.append(qp.var(obs_pool[i % 6]()))
+        elif kd == "VM":
+            ms.append(qp.var(mv_pool[i % 6]()))
+        elif kd == "EO":
+            ms.append(qp.expval(obs_pool[i % 6]()))
+        elif kd == "EM":
+            ms.append(qp.expval(mv_pool[i % 6]()))
+        else:
+            ms.append(qp.probs(wires=[i % 3, (i + 1) % 3]))
+    tape = qp.tape.QuantumScript([qp.RY(0.3, 0), qp.CNOT([0, 1])], ms, shots=None)
+    return tape, (m0.measurements[0], m1.measurements[0])
+
+
+def vt_exact_value(mp, mcms):
+    """independent exact evaluation of a measurement process on a fixed 3-qubit state and a fixed joint distribution of two mid-circuit
+    outcomes: expectation values from the observable's matrix, variances as <M^2> - <M>^2 from that same matrix"""
+    import numpy as np
+    import pennylane as qp
+    rs = np.random.RandomState(1234)
+    psi = rs.normal(size=8) + 1j * rs.normal(size=8)
+    psi = psi / np.linalg.norm(psi)
+    joint = {(0, 0): 0.1, (0, 1): 0.2, (1, 0): 0.3, (1, 1): 0.4}
+    kind = type(mp).__name__
+    if kind == "ProbabilityMP":
+        p = (np.abs(psi) ** 2).reshape(2, 2, 2)
+        ws = list(mp.wires)
+        p = p.sum(axis=tuple(a for a in range(3) if a not in ws))
+        if ws != sorted(ws):
+            p = p.T
+        return p.reshape(-1)
+    if mp.mv is not None:
+        f = {s: float(mp.mv.concretize(dict(zip(mcms, s)))) for s in joint}
+        e1 = sum(joint[s] * f[s] for s in joint)
+        e2 = sum(joint[s] * f[s] ** 2 for s in joint)
+    else:
+        M = qp.matrix(mp.obs, wire_order=[0, 1, 2])
+        e1 = float(np.real(np.vdot(psi, M @ psi)))
+        e2 = float(np.real(np.vdot(psi, M @ (M @ psi))))
+    if kind == "ExpectationMP":
+        return e1
+    if kind == "VarianceMP":
+        return e2 - e1 ** 2
+    raise ValueError(kind)
+
+
+def add_variance_transform(plan, tier):
+    """variance_transform (used by simulate_tree_mcm): the executed tape carries no variance measurement, and the post-processing function applied to
+    the exact values of the executed tape's measurements returns, for every original measurement, its exact value; for var(O) that is
+    <O^2> - <O>^2 (property: every method returns the exact branch-averaged result -- a variance is not additive over branches)"""
+    import numpy as np
+    xb = {"zip": lambda it, a, k: LazyIter("zip", list(a), strict=bool(k.get("strict"))),
+          "enumerate": lambda it, a, k: LazyIter("enumerate", [a[0]], start=(a[1] if len(a) > 1 else k.get("start", 0)))}
+    w = World(SIMF, stubs=VT_STUBS, extra_builtins=xb)
+    C = w.classes
+    cell = {}
+    OPREF = z3.DeclareSort("OpRef")
+
+    def mk_circuit(shape):
+        def ctor(ctx, name):
+            ms = []
+            for i, kd in enumerate(shape):
+                if kd == "VO":
+                    ms.append(Rec(C["VarianceMP"], {"obs": Rec(C["Obs"], {"oid": i}), "mv": None}))
+                elif kd == "VM":
+                    ms.append(Rec(C["VarianceMP"], {"obs": None, "mv": Rec(C["MV"], {"oid": i})}))
+                elif kd == "EO":
+                    ms.append(Rec(C["ExpectationMP"], {"obs": Rec(C["Obs"], {"oid": i}), "mv": None}))
+                elif kd == "EM":
+                    ms.append(Rec(C["ExpectationMP"], {"obs": None, "mv": Rec(C["MV"], {"oid": i})}))
+                else:
+                    ms.append(Rec(C["ProbabilityMP"], {"obs": None, "mv": None, "pid": i}))
+            cell["vals"], cell["ctx"] = {}, ctx
+            return Rec(C["QuantumScript"], {"operations": PyList([z3.Const(ctx.fresh_name("op"), OPREF)]), "measurements": PyList(ms),
+                                            "shots": z3.Int(ctx.fresh_name("shots"))})
+        return T("build", ctor, gen=lambda rng: {"__shape__": shape})
+
+    def okey(o):
+        """structural key of what is measured"""
+        if not isinstance(o, Rec):
+            return None
+        nm = o.cls.name
+        if nm in ("Obs", "MV"):
+            return (nm, o.f["oid"])
+        if nm in ("ObsProd", "MVProd"):
+            a, b = okey(o.f["a"]), okey(o.f["b"])
+            return None if a is None or b is None else (nm, a, b)
+        return None
+
+    def mkey(m):
+        if not isinstance(m, Rec) or m.cls.name not in ("ProbabilityMP", "VarianceMP", "ExpectationMP"):
+            return None
+        nm = m.cls.name
+        if nm == "ProbabilityMP":
+            return ("probs", m.f["pid"])
+        if (m.f.get("obs") is None) == (m.f.get("mv") is None):
+            return None
+        k = okey(m.f["obs"]) if m.f.get("mv") is None else okey(m.f["mv"])
+        return None if k is None else ({"VarianceMP": "var", "ExpectationMP": "expval"}[nm], k)
+
+    def val(key):
+        """the exact (branch-averaged) value of a measurement of the executed tape: one symbolic real per measured quantity"""
+        vals = cell["vals"]
+        if key not in vals:
+            vals[key] = FloatV(z3.Real(cell["ctx"].fresh_name("value_" + "_".join(str(x) for x in _flat(key)))))
+        return vals[key]
+
+    def expected(m):
+        kind, k = mkey(m)
+        if kind != "var":
+            return val((kind, k))
+        prod = ("ObsProd" if k[0] == "Obs" else "MVProd", k, k)
+        ex2, ex = val(("expval", prod)), val(("expval", k))
+        return FloatV(real_of(ex2) - real_of(ex) * real_of(ex))
+
+    def post_native(r, nw):
+        want, out = r["exact"], r["returned"]
+        return r["structure_ok"] and len(out) == len(want) and all(np.shape(g) == np.shape(x) and np.allclose(g, x, atol=1e-9, rtol=0)
+                                                                    for g, x in zip(out, want))
+
+    def post(case_ref):
+        def ensures(o, r, nw):
+            if not isinstance(nw.circuit, Rec):
+                return post_native(r, nw)
+            if not (isinstance(r, tuple) and len(r) == 2 and isinstance(r[0], tuple) and len(r[0]) == 1):
+                return False
+            tape, fn = r[0][0], r[1]
+            orig = mlist_of(nw.circuit)
+            if tape is nw.circuit:
+                # nothing to transform: only allowed when the circuit has no variance measurement
+                if any(mkey(m)[0] == "var" for m in orig):
+                    return False
+            elif not isinstance(tape, Rec) or tape.cls.name != "QuantumScript":
+                return False
+            elif tape.f["operations"] is not nw.circuit.f["operations"] or tape.f["shots"] is not nw.circuit.f["shots"]:
+                return False         # operations and shots of the executed tape are the circuit's
+            keys = [mkey(m) for m in mlist_of(tape)]
+            if any(k is None or k[0] == "var" for k in keys):
+                return False         # the executed tape carries no variance measurement
+            results = tuple(val(k) for k in keys)
+            try:
+                out = case_ref[0].interp.call(fn, [(results if len(results) > 1 else results[0],)], {})
+            except RaiseExc:
+                return False
+            want = [expected(m) for m in orig]
+            if len(want) == 1:
+                return _same_real(out, want[0])
+            if not isinstance(out, (PyList, tuple)):
+                return False
+            got = out.items if isinstance(out, PyList) else list(out)
+            return len(got) == len(want) and And(True, *[_same_real(g, x) for g, x in zip(got, want)])
+        return ensures
+
+    def native_call(mod, a):
+        """the REAL transform on a real tape; the executed tape is evaluated by an independent exact evaluator, the real post-processing applied"""
+        tape, mcms = vt_native_tape(tuple(a["circuit"]["measurement_kinds"]))
+        batch, fn = mod.variance_transform(tape)
+        new = batch[0]
+        ok = len(batch) == 1 and list(new.operations) == list(tape.operations) and new.shots == tape.shots \
+            and not any(type(m).__name__ == "VarianceMP" for m in new.measurements)
+        res = tuple(vt_exact_value(m, mcms) for m in new.measurements) if ok else ()
+        out = fn((res if len(res) > 1 else res[0],)) if ok else []
+        want = [vt_exact_value(m, mcms) for m in tape.measurements]
+        if len(want) == 1:
+            out = [out]
+        elif not isinstance(out, (list, tuple)):
+            ok = False
+        return {"measurements": [repr(m) for m in tape.measurements], "executed": [repr(m) for m in new.measurements], "structure_ok": ok,
+                "returned": [np.asarray(x).tolist() for x in out] if ok else [], "exact": [np.asarray(x).tolist() for x in want]}
+
+    def gen(shape):
+        def g(rng, m):
+            return {"circuit": {"measurement_kinds": list(shape)}}       # the real tape of this shape is built by vt_native_tape
+        return g
+    full = 3 if tier == "quick" else 4
+    shapes = [s for n in range(1, full + 1) for s in itertools.product(VT_KINDS, repeat=n)]
+    shapes += [("EM",), ("EM", "VM"), ("VM", "EM", "VO"), ("VO", "EO", "VM", "VO"), ("VO", "VO", "VO", "VO"), ("VM", "VO", "VM", "VO"),
+               ("EO", "VO", "PR", "VM", "VO"), ("VO", "PR", "VO", "EM", "VM"), ("VM", "VM", "VO", "VO", "VM", "VO")]
+    shapes = list(dict.fromkeys(shapes))
+    cases = []
+    for shape in shapes:
+        ref = []
+        c = Case("measurements " + ",".join(shape), {"circuit": mk_circuit(shape)}, ensures=post(ref), native_call=native_call, native_gen=gen(shape),
+                 native_raw=True, size_bounded=True)
+        c.interp_cls = LazyZipInterp
+        ref.append(c)
+        cases.append(c)
+    fc = FnContract(w, "variance_transform", cases)
+    plan.fn_under_contract(SIMF, "variance_transform")
+    plan.fn_under_contract(SIMF, "variance_transform.<locals>.variance_post_processing")
+    for ob in obligations_for(PID, fc, tier):
+        plan.add(ob)
+    plan.size_bounds.append(f"variance_transform: every sequence of 1..{full} measurements over var(observable) / var(measurement value) / expval / probs "
+                            "plus selected sequences of 4..6 (expval of measurement values included); observables, the executed tape's exact "
+                            "values, operations and shots are symbolic")
+    plan.assumed_contracts += ["observable @ observable / measurement value * measurement value denote the square of the measured quantity",
+                               "ExpectationMP(obs=x) measures x (stub constructor: a measurement value goes to .mv, an operator to .obs)",
+                               "python iterator protocol of enumerate / zip(strict=True) over a list that is mutated during iteration (modelled lazily: "
+                               "list iterators index the live list)"]
+
+
+def add_postselection(plan, tier):
+    pass
+
+
+def add_defer_measurements(plan, tier, seed):
+    pass
